@@ -2,6 +2,7 @@
 
 #include <nano/core/hash.h>
 #include <nano/core/stream.h>
+#include <limits>
 #include <nano/tensor/tensor.h>
 
 namespace nano
@@ -46,6 +47,20 @@ std::istream& read(std::istream& stream, tensor_t<tstorage, tscalar, trank>& ten
     {
         stream.setstate(std::ios_base::failbit);
         return stream;
+    }
+
+    // NB: reject invalid dimensions (negative or with an overflowing number of bytes)!
+    constexpr auto max_size = std::numeric_limits<tensor_size_t>::max() / static_cast<tensor_size_t>(sizeof(tscalar));
+
+    auto total = tensor_size_t{1};
+    for (size_t i = 0; i < trank; ++i)
+    {
+        if (dims[i] < 0 || (dims[i] > 0 && total > max_size / dims[i]))
+        {
+            stream.setstate(std::ios_base::failbit);
+            return stream;
+        }
+        total *= dims[i];
     }
 
     tensor.resize(dims);
